@@ -345,7 +345,14 @@ pub fn build_block_builder(builder: &Node, plan: &BlockPlan) -> BlockBuilder {
 
 /// A transaction spending the given always-success cells into `n_out` outputs, paying `fee`.
 pub fn spend(inputs: &[(OutPoint, u64)], n_out: usize, fee: u64, tag: u64) -> TransactionView {
+    spend_with_locks(inputs, n_out, fee, tag, false)
+}
+
+/// `vary_locks`: every transaction pays to its own lock (always_success with the tag as args), so that the scripts a
+/// block touches — what its block filter is built from — differ from block to block and from branch to branch
+pub fn spend_with_locks(inputs: &[(OutPoint, u64)], n_out: usize, fee: u64, tag: u64, vary_locks: bool) -> TransactionView {
     let (_, _, script) = always_success_cell();
+    let script = if vary_locks { script.clone().as_builder().args(Bytes::from(tag.to_le_bytes().to_vec()).pack()).build() } else { script.clone() };
     let total: u64 = inputs.iter().map(|(_, c)| *c).sum();
     let each = (total - fee) / n_out as u64;
     let rem = (total - fee) % n_out as u64;
